@@ -21,7 +21,6 @@ STACK_OPS = ["PEEK", "POP", "PEEK_ALL", "POP_ALL", "PEEK[0..1]", "PEEK[-1..]", "
 # terminators that can begin inside a partial match of themselves or of each other
 TERMINATORS = ["-->", "aab", "ab", "b", "abc", '\"\"\"', "中中文", "xyz", "--", "ba", "ababc", ";"]
 SLICES = ["PEEK[..]", "PEEK[1..]", "PEEK[..-1]", "PEEK[0..2]", "PEEK[-2..]", "PEEK[1..-1]", "PEEK[-1..]", "PEEK[0..1]"]
-RICH = [False]
 
 
 class Grammar:
@@ -86,7 +85,7 @@ def rich_expr(rng, i, n, depth):
 def expr(rng, i, n, depth):
     if depth <= 0:
         return consuming_atom(rng, i, n)
-    if RICH[0] and rng.chance(1, 4):
+    if getattr(rng, "rich", False) and rng.chance(1, 4):
         return rich_expr(rng, i, n, depth)
     k = rng.below(14)
     sub = lambda: expr(rng, i, n, depth - 1)
@@ -129,15 +128,9 @@ ODD_NAMES = ["type", "match", "loop", "mod", "fn", "self_", "gen", "Box", "Optio
 
 
 def build(seed, odd_names=False, rich=False):
-    RICH[0] = rich
-    try:
-        return _build(seed, odd_names)
-    finally:
-        RICH[0] = False
-
-
-def _build(seed, odd_names=False):
     rng = SplitMix(seed)
+    # carried by the generator object, not by module state: reference expansions are computed on pool threads concurrently
+    rng.rich = rich
     g = Grammar()
     n = 2 + rng.below(9)
     if rng.chance(1, 3):
